@@ -13,7 +13,12 @@ open Driver Impl.PyConv
   `topy <type> <value>` / `topyc <type> <value>` (comparable) → pyobj | `err:<kind>`
   `ofpy <type> <pyobj>` → value | `err:<kind>`
   `layout <type>` → `<mode> <path>=<namehex> …` (mode `dict`/`tuple`; pair or union node)
-  `inv <type>` → `true` | `false` -/
+  `inv <type>` → `true` | `false`
+extension: scalars `address key_hash key signature chain_id bls12_381_fr bls12_381_g1 bls12_381_g2 never`;
+  type `c <ann> <type>` (contract); pyobj `D<+|-><coef>e<exp>` (finite Decimal) | `Dnan` | `Dinf`;
+  any line may end with ` | <texthex>:<mask>:<rawhex|-> …`: what the real library says about the strings of the line —
+  mask = five binary digits `is_address is_pkh is_public_key is_sig is_chain_id`, raw = `base58_decode` (`-` if it
+  raises).  That table is the `valid` / `raw` parameter of the model for this line (base58 is C09's). -/
 
 def readOpt (t : String) : Option (Option String) :=
   if t = "-" then some none
@@ -33,6 +38,9 @@ def readAnn (t : String) : Option Ann :=
 def readScalar : String → Option Scalar
   | "unit" => some .unit | "bool" => some .bool | "nat" => some .nat | "int" => some .int
   | "mutez" => some .mutez | "timestamp" => some .timestamp | "string" => some .string | "bytes" => some .bytes
+  | "address" => some .address | "key_hash" => some .keyHash | "key" => some .key | "signature" => some .signature
+  | "chain_id" => some .chainId | "bls12_381_fr" => some .blsFr | "bls12_381_g1" => some .blsG1
+  | "bls12_381_g2" => some .blsG2 | "never" => some .never
   | _ => none
 
 partial def readTy : List String → Option (Ty × List String)
@@ -42,11 +50,12 @@ partial def readTy : List String → Option (Ty × List String)
     pure (.scalar a sc, rest)
   | k :: a :: rest => do
     let a ← readAnn a
-    if k = "O" || k = "l" || k = "S" then
+    if k = "O" || k = "l" || k = "S" || k = "c" then
       let (t, r) ← readTy rest
       match k with
       | "O" => pure (.option a t, r)
       | "l" => pure (.list a t, r)
+      | "c" => pure (.contract a t, r)
       | _ => pure (.set a t, r)
     else
       let (l, r1) ← readTy rest
@@ -130,6 +139,16 @@ mutual
       | 'I' => (parseInt body).map fun n => (.int n, rest)
       | 's' => (hexStr body).map fun s => (.str s, rest)
       | 'x' => (parseHex body).map fun b => (.bytes b, rest)
+      | 'D' =>
+        if body = "nan" then some (.decimalSpecial false, rest)
+        else if body = "inf" then some (.decimalSpecial true, rest)
+        else
+          match (body.drop 1).toString.splitOn "e" with
+          | [cf, ex] => do
+            let cf ← cf.toNat?
+            let ex ← parseInt ex
+            pure (.decimal (body.front == '-') cf ex, rest)
+          | _ => none
       | 't' => do
         let n ← body.toNat?
         let (xs, r) ← readPys n rest
@@ -187,6 +206,8 @@ mutual
     | .int n => ["I" ++ toString n]
     | .str s => ["s" ++ strHex s]
     | .bytes b => ["x" ++ toHex b]
+    | .decimal n cf ex => ["D" ++ (if n then "-" else "+") ++ toString cf ++ "e" ++ toString ex]
+    | .decimalSpecial inf => [if inf then "Dinf" else "Dnan"]
     | .tuple xs => ("t" ++ toString xs.length) :: showPys xs
     | .list xs => ("l" ++ toString xs.length) :: showPys xs
     | .record fs => ("d" ++ toString fs.length) :: showFields fs
@@ -247,9 +268,41 @@ def handleWith (c : Cfg) (line : String) : String :=
     | _ => "bad-op"
   | _ => "bad-op"
 
+/-- `<texthex>:<mask>:<rawhex|->` -/
+def readFact (t : String) : Option (String × List Bool × List Nat) :=
+  match t.splitOn ":" with
+  | [h, m, r] => do
+    let s ← hexStr h
+    let raw ← if r = "-" then some [] else parseHex r
+    pure (s, m.toList.map (· == '1'), raw)
+  | _ => none
+
+def domIdx : Dom → Nat
+  | .address => 0 | .keyHash => 1 | .key => 2 | .signature => 3 | .chainId => 4
+
+/-- `get_originated_address(0)` (compared with the real function by the harness) -/
+def originated0 : String := "KT1BEqzn5Wx8uJrZNvuS9DVHmLvG9td3fDLi"
+
+def mkCfg (f : Flags) (facts : List (String × List Bool × List Nat)) : Cfg :=
+  { toFlags := f
+    valid := fun d s => match facts.find? (·.1 == s) with
+      | some (_, m, _) => m.getD (domIdx d) false
+      | none => false
+    raw := fun s => match facts.find? (·.1 == s) with
+      | some (_, _, r) => r
+      | none => []
+    originated0 := originated0 }
+
 def handle (line : String) : String :=
   match cfg? with
-  | some c => handleWith c line
+  | some f =>
+    match line.splitOn " | " with
+    | [l] => handleWith (mkCfg f []) l
+    | [l, tbl] =>
+      match (words tbl).mapM readFact with
+      | some facts => handleWith (mkCfg f facts) l
+      | none => "bad-op"
+    | _ => "bad-op"
   | none => "unrecognised-source"
 
 def main : IO Unit := mainWith handle
